@@ -22,16 +22,16 @@ FMT_RULE = ("cases are generated from one splitmix64 state (VERIF_SEED, op, inde
             "over-weighting ASCII punctuation, blanks, tab/CR/LF and non-ASCII text, typed word (empty / prefix of a value / arbitrary / ending in E,ER,ERR), "
             "0-3 messages, a no-space set, environment switches; a case is non-trivial when it has at least one candidate or message; distinct = distinct input digest")
 
-HOOK_COMMITS = ["94169f7", "6cd8fd8"]
+HOOK_COMMITS = ["94169f7", "6cd8fd8", "2937117"]
 
 ENGINES = [
-    {"name": "extractor", "path": "extract/", "serves_properties": ["C02", "C03", "C04", "C05", "C06", "C08", "C09", "C10", "C11", "C12", "C13", "C17"],
+    {"name": "extractor", "path": "extract/", "serves_properties": ["C02", "C03", "C04", "C05", "C06", "C08", "C09", "C10", "C11", "C12", "C13", "C14", "C15", "C17"],
      "kind_free_text": "Go (go/ast): regenerates lean/Carapace/Gen (replacer tables, character sets, format strings, shell lists) from /repo on every run"},
-    {"name": "lean", "path": "lean/", "serves_properties": ["C02", "C03", "C04", "C05", "C06", "C08", "C09", "C10", "C11", "C12", "C13", "C17"],
+    {"name": "lean", "path": "lean/", "serves_properties": ["C02", "C03", "C04", "C05", "C06", "C08", "C09", "C10", "C11", "C12", "C13", "C14", "C15", "C17"],
      "kind_free_text": "Lean 4 library: Model (transcription of the code), Spec (readers, decoders, oracles), Props (theorems); compiled driver lean/Driver"},
-    {"name": "harness", "path": "harness/", "serves_properties": ["C02", "C03", "C04", "C05", "C06", "C08", "C09", "C10", "C11", "C12", "C13", "C17"],
+    {"name": "harness", "path": "harness/", "serves_properties": ["C02", "C03", "C04", "C05", "C06", "C08", "C09", "C10", "C11", "C12", "C13", "C14", "C15", "C17"],
      "kind_free_text": "Go module linking the real packages from /repo with -tags verif; generators and in-process execution, one JSON line per case"},
-    {"name": "runner", "path": "check", "serves_properties": ["C02", "C03", "C04", "C05", "C06", "C08", "C09", "C10", "C11", "C12", "C13", "C17"],
+    {"name": "runner", "path": "check", "serves_properties": ["C02", "C03", "C04", "C05", "C06", "C08", "C09", "C10", "C11", "C12", "C13", "C14", "C15", "C17"],
      "kind_free_text": "python3 (stdlib): orchestration, known-finding classification by input neutralisation, shrinking, evidence"},
 ]
 
@@ -129,6 +129,28 @@ PROPS.update({
             "level_text": ("`C09_schedule_independent` / `C09_any_two_schedules`: for every complete schedule of the member goroutines (any permutation) the result slots hold exactly the members' sequential results (each member writes only its own slot; induction over the schedule); `C09_equals_sequential`, `C09_merge_values` (merged by inserted value, later replaces earlier), `C09_merge_usage` (last non-empty usage), `C09_merge_messages` (union), `C09_batch_small`. The model is bound to batch.go / invokedAction.go by exact comparison of invoked Batch results on random expressions. "
                            "Partial by nature: the absence of data races is searched, not proved - Batch scenarios run on a -race build and any report of the race detector is a violation."),
             "level_note": ALG_NOTE + " The Go scheduler and memory model are outside the model; race freedom is only searched."},
+})
+
+
+CACHE_NOTE = ("Trusted: Lean kernel + propext/Classical.choice/Quot.sound; sha1 treated as injective; the clock (model time = seconds scaled to ticks, one tick per operation); os file semantics; the harness (private XDG_CACHE_HOME, call sites simulated by three Go functions, mtimes back-dated with os.Chtimes). "
+              "Modelled, not verified: action.go (Cache), internal/cache, pkg/cache, pkg/cache/key.String - bound by exact comparison of every output of generated histories with the Lean file-cache model.")
+
+PROPS.update({
+    "C14": {"modules": ["Carapace.Props.C14"], "ops": [("cache", {"quick": 3000, "thorough": 150000})],
+            "rule": "histories of 3-14 operations: invocations of a cached Action at one of three call sites with key tuples (0-2 keys of 1-2 strings; 10% with keys containing the separator characters; 15% with keys that change during the invocation), timeouts 10 s / 100 s / 1000 s / never, results with and without messages; clock advances by 3..1500 s; corruption of an entry (garbage, truncation, empty file, rarely a symlink loop); foreign files dropped into the cache directories; non-trivial = at least two invocations; distinct = distinct input digest",
+            "assumptions": ["FileChecksum / FileStats / FolderStats keys are not exercised (key.String and ad-hoc key functions are)", "the exact instant age == timeout is not observable (real time passes between operations)"],
+            "claimed": True, "engine": "cache",
+            "level_text": ("`C14_refines`: for every history of invocations, elapsed times and corruptions, the outputs of the file-based cache model (hit iff a file exists, is not older than the timeout - never for a negative timeout - and parses; written under the key values after the invocation; not written when the result has messages) equal the outputs of an abstract store keyed by (call site, key tuple), by a simulation proof over the operation list - under `KeyEncodingInjective`, the hypothesis the proof forces; `C14_never_stale`; `C14_key_collision` decides that the encoding is not injective in general (listed finding). "
+                           "Correspondence: every output (which real invocation's result is returned, whether a real invocation happened) of generated histories against the real library with a private cache directory; the abstract-store oracle is evaluated on the real outputs."),
+            "level_note": CACHE_NOTE},
+    "C15": {"modules": ["Carapace.Props.C15"], "ops": [("crashwrite", {"quick": 120, "thorough": 4000})],
+            "rule": "for an entry of 1-6 candidates (Action export JSON or raw bytes), with or without an expired complete previous entry of the same or a different shape and length, the real write path is run under RLIMIT_FSIZE = k for EVERY byte offset k from 0 to the entry length + 1 (the write fails part-way with EFBIG, exactly as on a full disk), then a reader goes through the real cache; non-trivial = every case (each enumerates ~150-250 offsets); distinct = distinct input digest",
+            "assumptions": ["a kill between syscalls and a reader concurrent with the write leave the same intermediate file states as a write that fails after k bytes (in-place protocol: O_TRUNC, then the bytes in order); kernel-level atomicity of rename(2) is trusted where a rename protocol is used",
+                            "`hprefix` (a proper prefix of an export document does not decode) is a property of encoding/json that is validated on the real code at every byte offset, not proved"],
+            "claimed": True, "engine": "cache",
+            "level_text": ("`C15_action_cache`: for every previous entry and every point at which the in-place write of a document stops, a reader gets nothing usable, the complete previous entry or the complete new entry - given that a proper prefix of the document does not decode; `write_is_in_place` / `loadE_decodes_whole_file` tie the protocol shape to the source (regenerated call lists of internal/cache.Write and LoadE); `C15_raw_cache_counterexample` decides that the raw byte cache serves a fragment (listed finding), `C15_raw_cache_rename` that a temp-file + rename protocol would not. "
+                           "Runtime part, searched exhaustively per case: the real write path is stopped at every byte offset and a reader goes through the real cache."),
+            "level_note": CACHE_NOTE},
 })
 
 
